@@ -706,7 +706,7 @@ impl Value {
     /// Flattens the Value in-place.
     ///
     /// See [`Value::flattened()`] for details.
-    pub(super) fn flatten(&mut self, state: &mut ResolveState) -> Result<()> {
+    pub(crate) fn flatten(&mut self, state: &mut ResolveState) -> Result<()> {
         let _prev = std::mem::replace(self, self.flattened(state)?);
         Ok(())
     }
